@@ -1456,6 +1456,7 @@ class Xsd11Element(XsdElement):
                 if e1.name == other.name:
                     break
             else:
+                e1 = self
                 for e2 in other.iter_substitutes():
                     if e2.name == self.name:
                         break
